@@ -24,6 +24,7 @@ CONSTANTS
   CLEAN = FALSE
   MaxActs = 0
   RECORD = FALSE
+  BUG_NESTED_DROP_FLAG = FALSE
   BUG_CLEAN_REENTRANT = FALSE
 INVARIANT StructInv
 PROPERTY CollectionEnds
